@@ -60,6 +60,10 @@ add('C20', 'exploration',
     'Every input of <= 5 (quick) / <= 6 (thorough) bytes over {a, ", comma, LF, CR, #} in every byte partition (separate Buffers from a Readable) x 3 policies x comment prefix x 2 encodings, all partitions of multi-byte UTF-8 samples incl. BOM / invalid / truncated sequences, and 64 KiB-straddling real files through fs.createReadStream and bulk mode: every delivery == single-chunk delivery == reference reader; invalid UTF-8 rejected in every partition.',
     TRUST + ' node v20 on PATH.', 'exhaustive schedule enumeration (all byte partitions) through a node driver, schedule-invariance + reference reader', 'DESIGN.md §2 C20')
 
+add('C19', 'exploration',
+    'Random queries from the language-neutral vocabulary rendered to JavaScript (select/where/order/distinct/top/limit/aggregates/joins/update/except/unnest, plus failing queries) are executed by rbql-js through the node driver and compared with the reference interpreter of C01-C05/C07 on the same structured query: result table, header, error class and record number, and caller arrays unchanged.',
+    TRUST + ' node v20 on PATH.', 'property-based testing (Hypothesis) of rbql-js against the reference interpreter, through a node batch driver', 'DESIGN.md §2 C19')
+
 NOT_APPLICABLE = []
 ALL = ['C%02d' % i for i in range(1, 21)]
 PENDING_REASON = 'check not built yet in this revision of /verif (planned, see DESIGN.md); not claimed until it exists and is quiet on the unchanged tree'
